@@ -28,6 +28,7 @@ type ringScenario struct {
 	Policy  string          `json:"policy"` // random | pct | script | free
 	Seed    int64           `json:"seed"`
 	Script  []verifkit.Step `json:"script"`
+	Compact int             `json:"compact"` // 1 = storm run: only the anomalies are logged (lost / phantom / dups), not every add
 }
 
 type ringAdd struct {
@@ -44,13 +45,18 @@ type ringResult struct {
 	Delivered []int        `json:"delivered"` // ids in delivery order (all passes, final pass last)
 	MaxLen    int          `json:"maxlenseen"`
 	Cap       int          `json:"cap"`
+	Lost      []int        `json:"lost"`      // compact runs: Success adds never delivered
+	Phantom   []int        `json:"phantom"`   // compact runs: delivered but not a Success add
+	Dups      []int        `json:"dups"`      // compact runs: delivered more than once
+	NAdds     int          `json:"nadds"`
 	LeftLen   int          `json:"leftlen"` // Len() after the final drain
 	Stripes   int          `json:"stripes"`
 	Drift     int          `json:"drift"`
 }
 
 func runRingScenario(sc ringScenario) ringResult {
-	res := ringResult{T: "ring", Sc: sc, Adds: []ringAdd{}, Delivered: []int{}}
+	res := ringResult{T: "ring", Sc: sc, Adds: []ringAdd{}, Delivered: []int{}, Lost: []int{}, Phantom: []int{}, Dups: []int{}}
+	startGate := make(chan struct{})
 	nm := node.NewManager[int, int](node.Config{})
 	mk := func(id int) node.Node[int, int] { return nm.Create(id, id, 0, 0, 1) }
 	var mu sync.Mutex
@@ -90,12 +96,23 @@ func runRingScenario(sc ringScenario) ringResult {
 	adder := func(a int) func() {
 		return func() {
 			defer left.Add(-1)
+			if sc.Policy == "raw" {
+				<-startGate
+			}
+			local := make([]ringAdd, 0, sc.NAdd)
+			nodes := make([]node.Node[int, int], sc.NAdd)
+			for n := range nodes {
+				nodes[n] = mk(a*100000 + n + 1)
+			}
+			defer func() {
+				mu.Lock()
+				res.Adds = append(res.Adds, local...)
+				mu.Unlock()
+			}()
 			for n := 1; n <= sc.NAdd; n++ {
 				id := a*100000 + n
-				s := add(mk(id))
-				mu.Lock()
-				res.Adds = append(res.Adds, ringAdd{a, id, int(s)})
-				mu.Unlock()
+				s := add(nodes[n-1])
+				local = append(local, ringAdd{a, id, int(s)})
 			}
 		}
 	}
@@ -111,8 +128,10 @@ func runRingScenario(sc ringScenario) ringResult {
 			}
 		}
 	}
-	if sc.Policy == "free" {
-		verifhook.Install(verifkit.Yielder(sc.Seed, 0.3))
+	if sc.Policy == "free" || sc.Policy == "raw" {
+		if sc.Policy == "free" {
+			verifhook.Install(verifkit.Yielder(sc.Seed, 0.3))
+		}
 		var wg sync.WaitGroup
 		for a := 1; a <= sc.Adders; a++ {
 			wg.Add(1)
@@ -126,6 +145,7 @@ func runRingScenario(sc ringScenario) ringResult {
 				}
 			}()
 		}
+		close(startGate)
 		wg.Add(1)
 		go func() {
 			defer wg.Done()
@@ -157,6 +177,35 @@ func runRingScenario(sc ringScenario) ringResult {
 		res.Drift = s.Drift
 	}
 	stop.Store(true)
+	res.NAdds = len(res.Adds)
+	if sc.Compact == 1 {
+		succ := map[int]bool{}
+		for _, a := range res.Adds {
+			if a.St == 0 {
+				succ[a.ID] = true
+			}
+		}
+		seen := map[int]int{}
+		for _, id := range res.Delivered {
+			seen[id]++
+		}
+		for id, n := range seen {
+			if !succ[id] {
+				res.Phantom = append(res.Phantom, id)
+			}
+			if n > 1 {
+				res.Dups = append(res.Dups, id)
+			}
+		}
+		if res.Diag == "" {
+			for id := range succ {
+				if seen[id] == 0 {
+					res.Lost = append(res.Lost, id)
+				}
+			}
+		}
+		res.Adds, res.Delivered = []ringAdd{}, []int{}
+	}
 	res.LeftLen = curLen()
 	if st != nil {
 		if bs := st.striped.Load(); bs != nil {
